@@ -29,6 +29,14 @@ def gen(tier, rng, scale):
         nlib = rng.range(0, 3)
         for l in range(nlib):
             ops.append(["L", "lib%d" % l])
+            if rng.chance(1, 2):
+                syms = []
+                a = rng.below(0x400)
+                for k in range(rng.range(1, 6)):
+                    size = rng.choice([0, 16, 64, 0x300, 0x1000])
+                    syms.append("%d:%d:sym%d_%d" % (a, size, l, k))
+                    a += rng.choice([16, 0x100, 0x800, 0x2000])
+                ops.append(["Y", l] + syms)
         procs = []
         threads = []
         pid_pool = [rng.range(100, 999) for _ in range(3)]
@@ -109,6 +117,9 @@ def _valid(ops):
             if o[1] >= np:
                 continue
             nt += 1
+        elif k == "Y":
+            if o[1] >= nl:
+                continue
         elif k == "M":
             if o[1] >= np or o[2] >= nl:
                 continue
@@ -200,6 +211,22 @@ def _coq_case(ops, prof):
     procs, threads, libs, maps = [], [], [], {}
     samples, mstacks, visible, selected, counters = [], [], [], [], []
     reqs = []
+    symtabs = {}
+
+    def sym_lookup(lib, rel):
+        """SymbolTable::lookup: last symbol starting at or before rel; a sized symbol only covers [address, address + size)"""
+        tab = symtabs.get(lib)
+        if not tab:
+            return None
+        best = None
+        for a, size, name in tab:
+            if a <= rel:
+                best = (a, size, name)
+        if best is None:
+            return None
+        if best[1] and not rel < min(best[0] + best[1], 2 ** 32 - 1 if best[0] + best[1] > 2 ** 32 - 1 else best[0] + best[1]):
+            return None
+        return best
 
     def request(th, p, f):
         """the table request a frame causes (same resolution as `expect`)"""
@@ -215,7 +242,11 @@ def _coq_case(ops, prof):
         if hit is None:
             reqs.append("(%d%%nat, FLabel %d)" % (th, S("0x%x" % x)))
         else:
-            reqs.append("(%d%%nat, FNative %d%%nat %d %d %d)" % (th, hit[0], hit[1], S("0x%x" % hit[1]), S(libs[hit[0]])))
+            sy = sym_lookup(hit[0], hit[1])
+            if sy is None:
+                reqs.append("(%d%%nat, FNative %d%%nat %d %d %d)" % (th, hit[0], hit[1], S("0x%x" % hit[1]), S(libs[hit[0]])))
+            else:
+                reqs.append("(%d%%nat, FNativeSym %d%%nat %d %d %d %d)" % (th, hit[0], hit[1], sy[0], S(sy[2]), S(libs[hit[0]])))
 
     def expect(p, f):
         if f[0] == "l":
@@ -237,6 +268,17 @@ def _coq_case(ops, prof):
             procs.append((o[1], o[2]))
         elif k == "L":
             libs.append(o[1])
+        elif k == "Y":
+            tab = []
+            for x in o[2:]:
+                a, sz, nm = x.split(":")
+                tab.append((int(a), int(sz), nm))
+            tab.sort()
+            ded = []
+            for e in tab:
+                if not ded or ded[-1][0] != e[0]:
+                    ded.append(e)
+            symtabs[o[1]] = ded
         elif k == "M":
             maps.setdefault(o[1], []).append((o[2], o[3], o[4], o[5]))
         elif k == "T":
@@ -302,12 +344,15 @@ def _coq_case(ops, prof):
     otables = []
     for th in prof["threads"]:
         ft, fu, rt = th["frameTable"], th["funcTable"], th["resourceTable"]
-        otables.append("(%s, %s, %s, %s, %s, %s, %s)" % (
+        otables.append("(%s, %s, %s, %s, %s, %s, %s, %s, %s, %s, %s)" % (
             K.coq_list([str(S(x)) for x in th["stringArray"]]),
             K.coq_list(["%d%%nat" % x for x in rt["lib"]]), K.coq_list(["%d%%nat" % x for x in rt["name"]]),
             K.coq_list(["%d%%nat" % x for x in fu["name"]]), K.coq_list([_opt(x) for x in fu["resource"]]),
             K.coq_list(["%d%%nat" % x for x in ft["func"]]),
-            K.coq_list(["None" if (x is None or x < 0) else "(Some %d)" % x for x in ft["address"]])))
+            K.coq_list(["None" if (x is None or x < 0) else "(Some %d)" % x for x in ft["address"]]),
+            K.coq_list([_opt(x) for x in ft["nativeSymbol"]]),
+            K.coq_list(["%d%%nat" % x for x in th["nativeSymbols"]["libIndex"]]), K.coq_list([str(x) for x in th["nativeSymbols"]["address"]]),
+            K.coq_list(["%d%%nat" % x for x in th["nativeSymbols"]["name"]])))
     oblibs = []
     for l in prof["libs"]:
         nm = l["name"]
